@@ -20,7 +20,7 @@ SPEC = dict(
                "only: the oracle c15_ok fails a run whose in-process digest holds more than 2k+30 centroids or whose "
                "first/last centroid is not a unit-weight centroid sitting on min/max, and tools/families/tdigest.py records "
                "max centroids/(2k+30) and max |rank - empirical rank| (absolute and in units of q(1-q)/k) in "
-               "evidence/C15-measured-tests.json, labelled 'test, not proof'. 'Unit-weight extremes' is an observed fact "
+               "evidence/measured/C15-tdigest-measured-tests.json, labelled 'test, not proof'. 'Unit-weight extremes' is an observed fact "
                "(it depends on the stability of the sort on ties); the theorem proved is 'first/last MEAN = min/max'. The "
                "theorems are over exact rationals: binary64 rounding of the group means is compared at 1e-9, not proved.",
     technique="Coq: relational model of the merge pass + proved-sound checker (translation validation of every real pass) + "
